@@ -73,8 +73,8 @@ func c42Wildcard(maxPat, maxStr int) {
 // {a,b,*,?,.}); no panic; the recursion terminates within the default unwind bound.
 func Verif_C42_Wildcard() { c42Wildcard(3, 3) }
 
-// Verif_C42_WildcardT: patterns 0..5 bytes, strings 0..5 bytes.
-func Verif_C42_WildcardT() { c42Wildcard(5, 5) }
+// Verif_C42_WildcardT: patterns 0..4 bytes, strings 0..4 bytes (5/5 exceeds 25 min: 80k+ paths).
+func Verif_C42_WildcardT() { c42Wildcard(4, 4) }
 
 // Verif_C42_HostPatterns: hostPatterns.match for 0..2 patterns with symbolic negation flags,
 // 1-byte symbolic host patterns (any byte, so '*' and '?' included), port "22" or a symbolic
